@@ -373,9 +373,11 @@ def _gen_histories(rng, quick):
         init = rand_spec(rng, shape, alphabet)
         if any(len({c[0] for c in s[2]}) != len(s[2]) for _a, s in core.spec_nodes(init)):
             continue      # fan-out larger than the alphabet gave a clash; not a valid Node tree
-        edits = H.random_edits(rng, init, rng.randint(1, 6), alphabet + ["c"],
-                               kinds=("rename", "swapnames", "move", "reattach", "reorder", "failmove"))
-        build = rng.choice(["nodes", "list", "addpath"])
+        build = rng.choice(["nodes", "nodes", "list", "addpath"])
+        kinds = ("rename", "swapnames", "move", "reattach", "reorder", "failmove")
+        if build == "nodes":     # objects of a user subclass: assignments rolled back because a (reading) hook raises
+            kinds += ("hookmove", "hookkids")
+        edits = H.random_edits(rng, init, rng.randint(1, 6), alphabet + ["c"], kinds=kinds)
         base = _hist_base(rng, init, edits, sep, build)
         starts = [0] + [rng.randrange(size) for _ in range(2)]
         out += _cases_for_tree(rng, base, starts, 1, ("hist-random", "build=" + build) + tuple(sorted({e[0] for e in edits})))
@@ -533,8 +535,9 @@ def _build_hist(d):
             objs = H.collect_in_spec_order(root, init)
         else:
             objs = []
+            HNode, _HBase = H.hooked_classes()     # hooks are no-ops except during the "hook…" edits
             def go(s, parent):
-                n = Node(s[0], parent=parent)
+                n = HNode(s[0], parent=parent)
                 objs.append(n)
                 for c in s[2]:
                     go(c, n)
